@@ -8,6 +8,7 @@ import SspModel.Model.Sev
 import SspModel.Model.Esc
 import SspModel.Model.IFMR
 import SspModel.Model.Schedule
+import SspModel.Model.Extract
 /-!
 # Line-protocol driver: one op per line in, one line out. Doubles cross as 16-hex-digit bit patterns.
 Runs the *same* model terms the theorems are about, at the `Float` instance.
@@ -182,6 +183,24 @@ def step (ws : List String) : String :=
     let (tmsU, r1) := takeList rest
     let (tout, _) := takeList r1
     fl (integrationGrid tmsU tout)
+  | "xstar" :: rest =>
+    -- flat (n a lo hi)* -> per bin "Ms ms" (nan nan when undefined)
+    " ".intercalate ((starBins (rest.map parseHex)).map fun b =>
+      match extractStar b.n b.a b.lo b.hi with
+      | some (Ms, ms) => toHex Ms ++ " " ++ toHex ms
+      | none => "nan nan")
+  | "xrem" :: rest =>
+    let rec go : List Float → List String
+      | lo :: hi :: N :: M :: t => toHex (remMean lo hi N M) :: go t
+      | _ => []
+    " ".intercalate (go (rest.map parseHex))
+  | "views" :: factor :: nmin :: rest =>
+    -- flat (cls N M width)* -> indices kept, nms, nmr
+    let rec rows : List Float → List (ViewRow Float)
+      | c :: N :: M :: w :: t => ⟨c.toUInt64.toNat, N, M, w⟩ :: rows t
+      | _ => []
+    let v := views (parseHex factor) (parseHex nmin) (rows (rest.map parseHex))
+    s!"{viewNms v} {viewNmr v} | {fl (viewM v)} | {fl (viewN v)} | {fl (viewm v)} | {" ".intercalate ((viewTypes v).map toString)}"
   | ["mrem", d, mb, mt] => toHex (Mrem (parseHex d) (parseHex mb) (parseHex mt))
   | ["sigmoid", slope, scale, m] => toHex (sigmoidRet (parseHex slope) (parseHex scale) (parseHex m))
   | ["erf", x] => toHex (Scalar.erf (parseHex x))
